@@ -91,6 +91,52 @@ def checkFamily (fam : String) : Option (Parser String) :=
       | .err e => showSetError e
       | .panic m => s!"panic {m}"
       | .abort m => s!"abort {m}")
+  | "api" => some do
+    -- the single-mode public entry points with an explicitly given post-state view (see harness fam_check.rs)
+    let entry ← tok; let modes ← tok; let solIx ← nat
+    let c ← pCheckCase
+    let post ← listOf pStEntry; done
+    let (se, mkCe, _) := c.setEnv
+    let ce := mkCe (mapState post)
+    let modeOf := fun (ch : Char) => if ch == '0' then RunMode.outputs else RunMode.checks
+    let showMems := fun (ms : List Memory) => "[" ++ ",".intercalate (ms.map showWords) ++ "]"
+    match entry with
+    | "cac" =>
+      let rec go : List Char → List Solution → List Cache → List String → List String
+        | [], _, _, acc => acc
+        | ch :: rest, sols, caches, acc =>
+          match checkAndCompute se ce sols (modeOf ch) caches with
+          | .ok (gas, sols', caches') => go rest sols' caches' (acc ++ [s!"ok {gas} " ++ " ".intercalate (sols'.map showSolMuts)])
+          | .err e => acc ++ [showSetError e]
+          | .panic m => acc ++ [s!"panic {m}"]
+          | .abort m => acc ++ [s!"abort {m}"]
+      pure (" | ".intercalate (go modes.toList c.sols (c.sols.map fun _ => []) []))
+    | "csp" =>
+      let rec goS : List Char → List Cache → List String → List String
+        | [], _, acc => acc
+        | ch :: rest, caches, acc =>
+          match checkSetPredicates se ce c.sols (modeOf ch) caches with
+          | .ok (gas, outs, caches') =>
+            goS rest caches' (acc ++ [s!"ok {gas} " ++ " ".intercalate (outs.map fun (i, ms) => s!"{i}:{showMems ms}")])
+          | .err e => acc ++ [showSetError e]
+          | .panic m => acc ++ [s!"panic {m}"]
+          | .abort m => acc ++ [s!"abort {m}"]
+      pure (" | ".intercalate (goS modes.toList (c.sols.map fun _ => []) []))
+    | "cp" =>
+      match c.sols[solIx]? with
+      | none => pure "bad-index"
+      | some s =>
+        let p := se.predicate s.contract s.predicate
+        let rec goP : List Char → Cache → List String → List String
+          | [], _, acc => acc
+          | ch :: rest, cache, acc =>
+            match checkPredicateInner ce c.sols solIx p se.collectAll (modeOf ch) cache with
+            | .ok (gas, data, cache') => goP rest cache' (acc ++ [s!"ok {gas} {showMems data}"])
+            | .err e => acc ++ [s!"err {showPredError e}"]
+            | .panic m => acc ++ [s!"panic {m}"]
+            | .abort m => acc ++ [s!"abort {m}"]
+        pure (" | ".intercalate (goP modes.toList [] []))
+    | _ => pure "bad-entry"
   | "onepass" => some do
     -- `check_and_compute_solution_set` in one mode on a fresh cache; post state = pre state overlaid with the declared mutations
     let mode ← nat
